@@ -867,6 +867,10 @@ func (tx *Tx) getHintIdxDataItemsWrapper(records Records, limitNum int, es Entri
 func (tx *Tx) FindTxIDOnDisk(fID, txID uint64) (ok bool, err error) {
 	var i uint16
 
+	if err := tx.checkTxIsClosed(); err != nil {
+		return false, err
+	}
+
 	filepath := tx.db.getBPTRootTxIDPath(int64(fID))
 	node, err := ReadNode(filepath, 0)
 
@@ -923,6 +927,10 @@ func (tx *Tx) FindOnDisk(fID uint64, rootOff uint64, key, newKey []byte) (entry 
 		df     *DataFile
 	)
 
+	if err := tx.checkTxIsClosed(); err != nil {
+		return nil, err
+	}
+
 	bnLeaf, err = tx.FindLeafOnDisk(int64(fID), int64(rootOff), key, newKey)
 
 	if bnLeaf == nil {
@@ -959,6 +967,10 @@ func (tx *Tx) FindOnDisk(fID uint64, rootOff uint64, key, newKey []byte) (entry 
 func (tx *Tx) FindLeafOnDisk(fID int64, rootOff int64, key, newKey []byte) (bn *BinaryNode, err error) {
 	var i uint16
 	var curr *BinaryNode
+
+	if err := tx.checkTxIsClosed(); err != nil {
+		return nil, err
+	}
 
 	filepath := tx.db.getBPTPath(fID)
 	curr, err = ReadNode(filepath, rootOff)
